@@ -55,6 +55,13 @@ fn oracle() -> Oracle {
                         if c.inputs != row.inputs {
                             return fail(format!("verbatim inputs: the call for row {k} carried {:?} but the row reports {:?}", c.inputs, row.inputs));
                         }
+                        // which rows are checked is the reference's: the two mid-clock rows of a C
+                        // expansion are unchecked, every other row is checked
+                        if let Some(RefItem::Row(rr)) = r.items.get(k) {
+                            if rr.checked == row.outputs.is_empty() {
+                                return fail(format!("checked rows: row {k} is {} but has {} outputs", if rr.checked { "a checked row (not a mid-clock row)" } else { "a mid-clock row" }, row.outputs.len()));
+                            }
+                        }
                         if case.ov {
                             if c.rw != !row.outputs.is_empty() {
                                 return fail(format!("call kind: row {k} has {} outputs but was sent with the {} call", row.outputs.len(), if c.rw { "output-reading" } else { "write-only" }));
@@ -135,6 +142,11 @@ pub fn run(tier: Tier, seed: u64) -> i32 {
     // (a) sequences of row shapes without device reads
     let sigs_a = vec![Sig::inp("CLK", 1, 0), Sig::inp("A", 4, 3), Sig::out("Q", 4), Sig::inp("B", 1, 1)];
     let ans_a = vec![MenuItem::ans(vec![("Q".into(), V::Num(2))])];
+    // configurations with a bidirectional signal: used as input and expected, only through
+    // its _out column, and not mentioned at all
+    let sigs_bidir = vec![Sig::out("Q", 4), Sig::bidir("D", 4, V::Num(5)), Sig::inp("CLK", 1, 0), Sig::inp("A", 4, 3)];
+    let ans_bidir = vec![MenuItem::ans(vec![("Q".into(), V::Num(2)), ("D".into(), V::Num(1))])];
+    let fault = MenuItem { step: crate::driver::Step::Fault(77), deviation: true, label: "fault".into() };
     let maxk = tier.pick(4, 5);
     let mut na = 0;
     for k in 1..=maxk {
@@ -149,6 +161,22 @@ pub fn run(tier: Tier, seed: u64) -> i32 {
                 }
                 cases.push(Case::new(&format!("row sequences K={k} #{idx} {}", if ov { "Ov" } else { "Fw" }), prog.clone(), sigs_a.clone(), ov, ans_a.clone(), ans_a.clone(), 40));
                 na += 1;
+                if k <= 3 {
+                    // the driver fails once, at any call, and the caller carries on
+                    let mut menu = ans_a.clone();
+                    menu.push(fault.clone());
+                    let mut c = Case::new(&format!("row sequences with one driver fault K={k} #{idx} {}", if ov { "Ov" } else { "Fw" }), prog.clone(), sigs_a.clone(), ov, ans_a.clone(), menu, 40);
+                    c.dev_budget = 1;
+                    c.continue_after_call_errors = true;
+                    c.w_menu = vec![fault.clone()];
+                    cases.push(c);
+                    na += 1;
+                    for (hname, header) in [("D as input and D_out", ["CLK", "D", "D_out"]), ("D only through D_out", ["CLK", "A", "D_out"]), ("D not mentioned", ["CLK", "A", "Q"])] {
+                        let p2 = Program { header: header.iter().map(|s| s.to_string()).collect(), body: prog.body.clone() };
+                        cases.push(Case::new(&format!("bidirectional signal, {hname}, K={k} #{idx} {}", if ov { "Ov" } else { "Fw" }), p2, sigs_bidir.clone(), ov, ans_bidir.clone(), ans_bidir.clone(), 40));
+                        na += 1;
+                    }
+                }
             }
         }
     }
